@@ -1,3 +1,4 @@
+import BalmProofs.AttrBridge
 import BalmProofs.FallbackSpec
 import BalmProofs.SymHyp
 import Balm
